@@ -187,20 +187,34 @@ typedef AbstractSingleObjectiveOptimizer<RealVector> OptBase;
 struct Trace{
 	std::vector<RealVector> pts; std::vector<double> vals, sig;
 	std::string bad;   // first oracle failure
+	std::size_t pdUndecided;   // steps at which the covariance was numerically singular (pivot within rounding of zero)
+	Trace(): pdUndecided(0){}
 };
 
 static void fail(Trace& t, std::string const& w){ if(t.bad.empty()) t.bad = w; }
 
-// independent Cholesky factorisation (positive definiteness of a symmetric matrix)
-template<class M> static bool cholesky(M const& C){
+// independent Cholesky factorisation (positive definiteness of a symmetric matrix).  Returns 1: positive definite,
+// 0: CERTIFIABLY not positive definite (a pivot below -tol or not finite), 2: numerically singular -- a pivot within the
+// rounding error of the factorisation (|pivot| <= 64 n eps C_ii) of zero, which floating point cannot decide (condition
+// number beyond ~1e13: e.g. CMA-ES that keeps running after it has converged to the last bit of x)
+static double g_lastPivot = 0, g_lastDiag = 0;
+template<class M> static int cholesky(M const& C){
 	std::size_t n = C.size1(); std::vector<double> L(n*n, 0.0);
 	for(std::size_t i = 0; i != n; ++i) for(std::size_t j = 0; j <= i; ++j){
 		double s = C(i,j);
 		for(std::size_t k = 0; k != j; ++k) s -= L[i*n+k] * L[j*n+k];
-		if(i == j){ if(!(s > 0) || !std::isfinite(s)) return false; L[i*n+i] = std::sqrt(s); }
+		if(i == j){
+			if(!std::isfinite(s)){ g_lastPivot = s; g_lastDiag = C(i,i); return 0; }
+			if(!(s > 0)){
+				g_lastPivot = s; g_lastDiag = C(i,i);
+				double tol = 64.0 * n * 2.220446049250313e-16 * std::fabs(C(i,i));
+				return (s < -tol || !(C(i,i) > 0)) ? 0 : 2;
+			}
+			L[i*n+i] = std::sqrt(s);
+		}
 		else L[i*n+j] = s / L[j*n+j];
 	}
-	return true;
+	return 1;
 }
 // a lower Cholesky factor kept by the algorithm: finite, positive diagonal (=> L L^T is symmetric positive definite)
 template<class M> static bool validFactor(M const& L){
@@ -364,20 +378,33 @@ static double checkState(Config const& c, OptBase& o, Trace& t){
 	if(c.kind == "cma"){
 		CMA& m = static_cast<CMA&>(o);
 		RealMatrix const& C = m.covarianceMatrix();
+		// positive definiteness is decided on the symmetric part (C + C^T)/2, so that it does not depend on the asymmetry of
+		// the stored matrix (finding F13), and first: a matrix that is both indefinite and asymmetric is reported as indefinite
+		RealMatrix S(C.size1(), C.size2());
+		for(std::size_t i = 0; i != C.size1(); ++i){
+			for(std::size_t j = 0; j != C.size2(); ++j) S(i,j) = 0.5 * (C(i,j) + C(j,i));
+		}
+		int pd = cholesky(S);
+		if(pd == 0){
+			std::ostringstream os; os << "covariance-not-positive-definite pivot=" << g_lastPivot << " of-diagonal-entry=" << g_lastDiag << " step=" << t.pts.size();
+			fail(t, os.str());
+		}
+		if(pd == 2) ++t.pdUndecided;
 		for(std::size_t i = 0; i != C.size1(); ++i) for(std::size_t j = 0; j != i; ++j)
 			if(!sameBits(C(i,j), C(j,i))){
 				// the two triangles are not computed by bit-symmetric operations (remora evaluates w*outer_prod(a,b)
 				// as outer_prod(w*a,b)); the asymmetry is never corrected and drifts: relative differences above 1e-12
 				// were observed after ~100 generations: the absolute asymmetry stays around 1e-19..1e-21 while C itself
 				// shrinks by 12 orders of magnitude (see findings_proposed/C11.md).  Tolerance: 1e-9 of sqrt(C_ii C_jj)
-				// plus 1e-16 absolute (the initial covariance is the identity).
+				// plus 1e-16 absolute (the initial covariance is the identity).  NB: the absolute term makes this check
+				// vacuous once C has shrunk far below 1e-7: a relative asymmetry of 3e-2 at |C| ~ 1e-30 was observed (CMA,
+				// lambda=40, mu=39, 3-d Rosenbrock, step 132, long after convergence to the last bit) -- the same drift, F13.
 				double sc = std::sqrt(std::fabs(C(i,i)) * std::fabs(C(j,j)));
 				if(!(std::fabs(C(i,j) - C(j,i)) <= 1e-9 * sc + 1e-16)){
 					std::ostringstream os; os << "covariance-not-symmetric Cij=" << C(i,j) << " Cji=" << C(j,i) << " Cii=" << C(i,i) << " Cjj=" << C(j,j) << " step=" << t.pts.size();
 					fail(t, os.str());
 				}
 			}
-		if(!cholesky(C)) fail(t, "covariance-not-positive-definite");
 		if(!finiteVec(m.mean()) || !finiteVec(m.evolutionPath()) || !finiteVec(m.evolutionPathSigma())) fail(t, "mean-or-path-non-finite");
 		// weights: positive, non-increasing in the rank, sum 1; learning rates in their admissible ranges
 		RealVector const& w = m.weights(); double sw = 0; bool ok = w.size() == m.mu();
@@ -762,6 +789,7 @@ int main(){
 				Trace u = runOnce(cfg, h4, *f, 0, seed, 4, steps, x0);    // an object used on another problem before
 				out << "final pt=" << showVec(a.pts.back()) << " val=" << vh::exactDouble(a.vals.back())
 				    << " sigma=" << vh::exactDouble(a.sig.back()) << " digest=" << digest(a);
+				if(a.pdUndecided) out << " pd-undecided=" << a.pdUndecided << " last-pivot=" << g_lastPivot << " of=" << g_lastDiag;
 				if(!a.bad.empty()) out << " !oracle " << a.bad;
 				else if(!b.bad.empty()) out << " !oracle " << b.bad << " run=second";
 				else if(!r.bad.empty()) out << " !oracle " << r.bad << " run=reinitialised";
